@@ -304,7 +304,7 @@ func (x *c09) fault(m *mcontract, f Fault, op C09Op) error {
 
 	if res.Infra != nil {
 		x.cs.Inconclusive("watchdog")
-		return errInfra
+		return errInconclusive
 	}
 	if proofErr != nil {
 		return proofErr
@@ -355,7 +355,7 @@ func (x *c09) rawFree(m *mcontract, indices []uint64) error {
 	r := x.R.Free(m.view(), x.Prices, indices, rhpx.Script{}, nil)
 	if r.Infra != nil {
 		x.cs.Inconclusive("watchdog")
-		return errInfra
+		return errInconclusive
 	}
 	if !r.Done {
 		if valid {
